@@ -424,6 +424,96 @@ static void caseMulti(const std::string& cls, const std::vector<double>& v) {
     vh::P("no_duplicates", "GeneralContactSubsystem." + cls + ".duplicates", dup, 0);
 }
 
+
+// ---- surface placement (after a seeded bug in the broad phase went unseen: the bounding-sphere centre was moved into the body
+// frame with the translation of X_BS only).  A mesh whose bounding-sphere centre is / is not at its own origin is attached to a
+// welded body (random pose X_GB) through X_BS in {identity, translation, rotation, rotation+translation}; the other surface
+// (sphere or a second mesh) is on Ground.  "Contact reported iff the shapes overlap" is judged in Ground by brute force over
+// the faces (sphere) and, independently of how the placement is split between vertices and X_BS, by comparison with the same
+// geometry with X_BS baked into the vertices.  Both GeneralContactSubsystem and ContactTrackerSubsystem.
+// v: place(0..3) off(0/1) other(0 sphere,1 mesh) kind seed  X_GB(12) X_BS(12) shift(3) | sphere: c(3) r  /  mesh2: kind2 seed2 X2(12)
+struct PlaceRes { bool ok = true; bool hit = false; std::set<int> faces; int count = 0; };
+static PlaceRes placeGeneral(const ContactGeometry& mesh, const Transform& X_GB, const Transform& X_BS, const ContactGeometry& other, const Transform& X_GO) {
+    PlaceRes r; MultibodySystem system; SimbodyMatterSubsystem matter(system); GeneralContactSubsystem contacts(system);
+    Body::Rigid body(MassProperties(1.0, Vec3(0), Inertia(1)));
+    MobilizedBody::Weld w(matter.Ground(), X_GB, body, Transform());
+    ContactSetIndex set = contacts.createContactSet();
+    contacts.addBody(set, w, mesh, X_BS); contacts.addBody(set, matter.updGround(), other, X_GO);
+    State st = system.realizeTopology(); system.realize(st, Stage::Dynamics);
+    const Array_<Contact>& cs = contacts.getContacts(st, set); r.count = cs.size();
+    for (auto& c : cs) if (TriangleMeshContact::isInstance(c)) { r.hit = true; const TriangleMeshContact& t = static_cast<const TriangleMeshContact&>(c);
+        const std::set<int>& f = (int)t.getSurface1() == 0 ? t.getSurface1Faces() : t.getSurface2Faces(); r.faces.insert(f.begin(), f.end()); }
+    return r;
+}
+static PlaceRes placeTracker(const ContactGeometry& mesh, const Transform& X_GB, const Transform& X_BS, const ContactGeometry& other, const Transform& X_GO) {
+    PlaceRes r;
+    try {
+        MultibodySystem system; SimbodyMatterSubsystem matter(system); ContactTrackerSubsystem tracker(system);
+        ContactMaterial mat(1e6, 0.1, 0.5, 0.5, 0.1);
+        Body::Rigid body(MassProperties(1.0, Vec3(0), Inertia(1)));
+        body.addContactSurface(X_BS, ContactSurface(mesh, mat, 0.1));
+        matter.Ground().updBody().addContactSurface(X_GO, ContactSurface(other, mat, 0.1));
+        MobilizedBody::Weld w(matter.Ground(), X_GB, body, Transform());
+        State st = system.realizeTopology(); system.realize(st, Stage::Position);
+        const ContactSnapshot& snap = tracker.getActiveContacts(st); r.count = snap.getNumContacts();
+        for (int i = 0; i < r.count; ++i) { const Contact& c = snap.getContact(i); if (TriangleMeshContact::isInstance(c)) { r.hit = true; const TriangleMeshContact& t = TriangleMeshContact::getAs(c);
+            // the mesh on the body: whichever surface belongs to the welded body
+            bool firstIsBody = tracker.getMobilizedBody(t.getSurface1()).getMobilizedBodyIndex() != matter.getGround().getMobilizedBodyIndex();
+            const std::set<int>& f = firstIsBody ? t.getSurface1Faces() : t.getSurface2Faces(); r.faces.insert(f.begin(), f.end()); } }
+    } catch (const std::exception&) { r.ok = false; }
+    return r;
+}
+static void casePlace(const std::string&, const std::vector<double>& v) {
+    static const char* pname[4] = {"identity", "translation_only", "rotation_only", "rotation_and_translation"};
+    int place = (int)v[0], off = (int)v[1], other = (int)v[2], kind = (int)v[3]; uint64_t mseed = (uint64_t)v[4];
+    Transform X_GB = readX(v, 5), X_BS = readX(v, 17); Vec3 shift = V(v, 29);
+    const std::string cls = std::string(pname[place]) + (off ? ".off_centre" : ".centred") + (other ? ".mesh" : ".sphere");
+    vh::Line in = vh::I("p.col.place"); in.s(cls); for (double x : v) in.d(x); in.emit();
+    std::puts("O p.col.place -");
+    gm::Mesh m = gm::makeMesh(kind, mseed, 1); for (auto& p : m.V) p += shift;
+    gm::Mesh mb = m; for (auto& p : mb.V) p = X_BS * p;                       // X_BS baked into the vertices
+    ContactGeometry::TriangleMesh mesh(m.vertices(), m.faceIndices(), false), baked(mb.vertices(), mb.faceIndices(), false);
+    Vec3 bc; Real br; mesh.getBoundingSphere(bc, br);
+    vh::D("p.col.place." + cls); if (bc.norm() > 0.2 * br) vh::D("p.col.place.bounding_sphere_centre_off_origin"); else vh::D("p.col.place.bounding_sphere_centre_near_origin");
+    const Transform X_GM = X_GB * X_BS;
+    std::unique_ptr<ContactGeometry> og; Transform X_GO; int refOverlap = -1; double L = br;
+    if (other == 0) { Vec3 c = V(v, 32); double r = v[35]; og.reset(new ContactGeometry::Sphere(r)); X_GO = Transform(c);
+        double dmin = INFINITY; for (auto& f : m.F) dmin = std::min(dmin, std::sqrt(gm::pointTriDist2(c, X_GM * m.V[f[0]], X_GM * m.V[f[1]], X_GM * m.V[f[2]])));
+        if (std::abs(dmin - r) > 1e-7 * L) refOverlap = dmin < r ? 1 : 0; }
+    else { gm::Mesh m2 = gm::makeMesh((int)v[32], (uint64_t)v[33], 1); og.reset(new ContactGeometry::TriangleMesh(m2.vertices(), m2.faceIndices(), false)); X_GO = readX(v, 34); }
+    for (int path = 0; path < 2; ++path) {
+        const std::string K = std::string(path ? "ContactTrackerSubsystem" : "GeneralContactSubsystem") + ".surface_placement." + cls;
+        PlaceRes a = path ? placeTracker(mesh, X_GB, X_BS, *og, X_GO) : placeGeneral(mesh, X_GB, X_BS, *og, X_GO);
+        PlaceRes b = path ? placeTracker(baked, X_GB, Transform(), *og, X_GO) : placeGeneral(baked, X_GB, Transform(), *og, X_GO);
+        if (!a.ok || !b.ok) { vh::D("p.col.place.tracker_unavailable." + std::string(other ? "mesh" : "sphere")); continue; }
+        vh::D(K + (a.hit ? ".hit" : ".miss"));
+        if (refOverlap >= 0) vh::P("contact_iff_overlap", K + ".contact_iff_overlap", (a.hit == (refOverlap == 1)) ? 0 : 1, 0);
+        std::vector<int> diff; std::set_symmetric_difference(a.faces.begin(), a.faces.end(), b.faces.begin(), b.faces.end(), std::back_inserter(diff));
+        vh::P("placement_split_irrelevant", K + ".baked_agrees", (a.hit == b.hit ? 0 : 1) + (double)diff.size(), 0);
+    }
+}
+// coverage floor of the placement stream: the 16 classes (4 placements x centred/off-centre x sphere/mesh) are cycled through
+// deterministically, one every 12th iteration: all are hit iff n >= 12*15 + 3
+static void casePlaceCoverage(const std::vector<double>& v) {
+    long n = (long)v[0], cnt = 0; for (long it = 0; it < n; ++it) if (it % 12 == 2) ++cnt;
+    vh::Line in = vh::I("p.col.place.coverage"); in.s("generic"); in.d(v[0]); in.emit(); std::puts("O p.col.place.coverage -");
+    vh::D("p.col.place.coverage.classes_hit=" + std::to_string((int)std::min<long>(16, cnt)));
+    vh::P("placement_stream_covers_all_classes", "GeneralContactSubsystem.surface_placement.coverage", (double)(16 - std::min<long>(16, cnt)), 0);
+}
+static void genPlace(vh::Rng& g, long counter) {
+    int place = counter % 4, off = (counter / 4) % 2, other = (counter / 8) % 2, kind = g.below(3); double mseed = (double)(g.next() % 100000);
+    Transform X_GB(rndRot(g), rndVec(g, 0.1, 2));
+    Transform X_BS = place == 0 ? Transform() : place == 1 ? Transform(rndVec(g, 0.3, 2)) : place == 2 ? Transform(rndRot(g)) : Transform(rndRot(g), rndVec(g, 0.3, 2));
+    Vec3 shift = off ? g.range(2.0, 4.0) * Vec3(UnitVec3(rndVec(g, 0.1, 1))) : Vec3(0);
+    std::vector<double> v = {(double)place, (double)off, (double)other, (double)kind, mseed}; pushX(v, X_GB); pushX(v, X_BS); push3(v, shift);
+    gm::Mesh m = gm::makeMesh(kind, (uint64_t)mseed, 1); const Transform X_GM = X_GB * X_BS;
+    Vec3 cen(0); for (auto& p : m.V) cen += (p + shift) / (double)m.V.size(); Vec3 cG = X_GM * cen;
+    const auto& f = m.F[g.below((int)m.F.size())]; Vec3 q = X_GM * ((m.V[f[0]] + m.V[f[1]] + m.V[f[2]]) / 3 + shift); Vec3 n = Vec3(UnitVec3(q - cG));
+    if (other == 0) { double r = g.range(0.2, 0.8), over = g.range(-0.5, 0.5) * r; if (std::abs(over) < 0.02 * r) over = 0.05 * r; push3(v, q + (r - over) * n); v.push_back(r); }
+    else { int k2 = g.below(3); double s2 = (double)(g.next() % 100000); Transform X2(rndRot(g), q + g.range(0.3, 1.6) * n); v.push_back(k2); v.push_back(s2); pushX(v, X2); }
+    casePlace("", v);
+}
+
 static void replayLine(const std::string& line);
 static const char* DEEP_WITNESS[2] = {
     "I p.col.ell_ell deep_witness 3fefd7d303a99a8b 3f9a4c0b6a74b205 bfb8744f31b38382 bf94c9d1a36190a1 3feff10d4ef5be5b 3fad1dc853fb4cc4 3fb8c89867b825e4 bfabfb0b66b5af2c 3fefcd386f4483a1 3fce94b83118f0f8 3ff7f53b644d7719 bfc9baca33445a44 3fe7e135f733021a bfd8584700a30dfa bfe17b2cf9c64621 bfe1076985aa3bdb bfeaaf71f062bbbe bfc2b8e842ab661a bfd99843bf889958 3fd9974e4961db37 bfea642d263eb786 3fe004ebeab69b3c bfb5508926334120 bfee3ca73f78a86b 3ffc9987ef154043 3ffc4ed994b4ccc1 3ff7904e5f960a1a 3ffe49ad1fd96397 3fe0b6391163193e 3ffcad52b218a638",
@@ -522,9 +612,11 @@ static void genMulti(vh::Rng& g, const std::string& cls) {
     caseMulti(cls, v);
 }
 static void generic(vh::Rng& g, long n) {
+    casePlaceCoverage({(double)n});
     for (long it = 0; it < n; ++it) {
         if (it % 12 == 5) { genTracker(g, "generic"); continue; }
         if (it % 12 == 11) { genMulti(g, "generic"); continue; }
+        if (it % 12 == 2) { genPlace(g, it / 12); continue; }      // cycles through 4 placements x centred/off-centre x sphere/mesh
         switch (g.below(10)) {
         case 0: case 1: genHsSph(g, "generic", 0); break;
         case 2: case 3: genSphSph(g, "generic", 0); break;
@@ -574,6 +666,8 @@ static void replayLine(const std::string& line) {
         else if (fn == "col.hs_ell") caseHsEll(cls, v); else if (fn == "col.detect") caseDetect(cls, v);
         else if (fn == "p.col.ell_sph") caseEllSph(cls, v); else if (fn == "p.col.ell_ell") caseEllEll(cls, v);
         else if (fn == "p.col.mesh") caseMesh(cls, v);
+        else if (fn == "p.col.place.coverage") casePlaceCoverage(v);
+        else if (fn == "p.col.place") casePlace(cls, v);
         else if (fn == "p.col.tracker") caseTracker(cls, v); else if (fn == "p.col.multi") caseMulti(cls, v);
     }
 }
